@@ -34,7 +34,7 @@ ASSUMPTIONS = [
     "reference Jacobian = complex-step derivative (h=1e-30) of an independent numpy evaluator with "
     "piecewise-analytic continuations; validated against sympy diff in 'selfcheck' cases",
     "points closer than 1e-6 to a kink or domain edge are skipped",
-    "tolerance 1e-7 x (largest magnitude of any intermediate value or derivative of the reference)",
+    "tolerance 1e-7 x (largest magnitude of any intermediate value or derivative of the reference); measured round-off floor over the whole thorough space: 3.9e-11 (tan(exp(exp(X))))",
 ]
 BOUNDS = {
     "quick": "depth <= 2 chains over the full letter alphabet, n in {1,3,4}, 5 points; joins over 14x14 representatives x 6 ops, n in {3,4}; sympy self-check of the oracle (depth 1 at n=2,3; depth 2 at n=3)",
@@ -208,9 +208,6 @@ def run_case(case) -> Outcome:
                         bad = ("value differs from numpy evaluation", {"observed": v, "expected": val})
                     elif not np.all(np.abs(J - jac) <= TOL * scale):
                         bad = ("Jacobian differs from true derivative", {"observed": J, "expected": jac, "max_err": float(np.max(np.abs(J - jac)))})
-                    else:
-                        err = max(float(np.max(np.abs(v - val))), float(np.max(np.abs(J - jac)))) / scale
-                        out.extra["max_rel_err_1e-18"] = max(out.extra.get("max_rel_err_1e-18", 0), int(err * 1e18))
             except Exception as exc:  # in-domain expression must evaluate
                 bad = ("evaluation raised", {"error": repr(exc)[:300]})
             if bad is not None:
